@@ -223,5 +223,45 @@ def R11():  # pptx: picture extraction moved into a helper that returns the imag
     s2 = s2.replace("def _process_slide_from_context(", helper + "def _process_slide_from_context(", 1)
     open(p, "w").write(s2)
 
+def R30():  # odg: fields set after construction, dict() for the shared ones
+    p = E + "open_office/odg_extractor.py"
+    s, a, b = fn_region(p, "def _extract_images(", "def read_odg(")
+    body = s[a:b]
+    old = body[body.index("                img_data = ctx.read_bytes(href)\n"):body.index("            else:\n", body.index("                img_data = ctx.read_bytes(href)\n"))]
+    new = ("                img_data = ctx.read_bytes(href)\n"
+           "                common = dict(href=href, width=width, height=height, caption=caption, description=description, unit_name=None)\n"
+           "                record = OpenDocumentImage(name=name or href.split(\"/\")[-1], **common)\n"
+           "                record.content_type = guess_content_type(href)\n"
+           "                record.data = io.BytesIO(img_data)\n"
+           "                record.size_bytes = len(img_data)\n"
+           "                record.image_index = image_counter\n"
+           "                images.append(record)\n")
+    open(p, "w").write(s[:a] + body.replace(old, new) + s[b:])
+
+def R31():  # pptx: the located picture travels as a dict
+    p = E + "ms_modern/pptx_extractor.py"
+    s = open(p).read()
+    i = s.index("                blob = ctx.get_image_data(image_path)\n                if blob is not None:\n")
+    s = s[:i] + "                found = {\"blob\": ctx.get_image_data(image_path), \"target\": target}\n                blob = found[\"blob\"]\n                if blob is not None:\n" + s[i + len("                blob = ctx.get_image_data(image_path)\n                if blob is not None:\n"):]
+    s = s.replace('                    ext = target.rsplit(".", 1)[-1].lower()\n                    content_type = _CONTENT_TYPE_MAP', '                    ext = found.get("target").rsplit(".", 1)[-1].lower()\n                    content_type = _CONTENT_TYPE_MAP', 1)
+    open(p, "w").write(s)
+
+def R34():  # epub: number by len(images) + 1, no counter
+    p = E + "epub_extractor.py"
+    s, a, b = fn_region(p, "def _extract_images(ctx", "def _extract_toc(")
+    body = s[a:b]
+    body = body.replace("    image_counter = 0\n", "").replace("            image_counter += 1\n", "").replace("image_index=image_counter,", "image_index=len(images) + 1,")
+    assert "image_counter" not in body
+    open(p, "w").write(s[:a] + body + s[b:])
+
+def R35():  # pdf: enumerate -> counter, helper call inline, keyword arguments
+    p = E + "pdf/pdf_extractor.py"
+    s = open(p).read()
+    old = "    for image_index, (obj_name, obj, caption) in enumerate(candidates, start=1):\n        try:\n            image_data = _extract_image(obj, obj_name, image_index, page_num, caption)\n            found_images.append(image_data)\n"
+    assert s.count(old) == 1
+    s = s.replace(old, "    position = 0\n    for obj_name, obj, caption in candidates:\n        position += 1\n        try:\n            found_images.append(_extract_image(obj, obj_name, caption=caption, page_num=page_num, index=position))\n")
+    s = s.replace('"Failed to extract image [%s] [%d]: %s", obj_name, image_index, e', '"Failed to extract image [%s] [%d]: %s", obj_name, position, e')
+    open(p, "w").write(s)
+
 globals()[sys.argv[1]]()
 print("applied", sys.argv[1])
